@@ -24,9 +24,12 @@ def parseOp (tok : String) : Op :=
     | "bK" :: p => if p.isEmpty then .bad else .kBegin p
     | "eK" :: p => if p.isEmpty then .bad else .kEnd p
     | "eS" :: p | "eF" :: p | "eC" :: p => .sEnd p
+    | "cS" :: p | "cF" :: p | "cC" :: p => .cancel p
+    | "jS" :: p | "jF" :: p | "jC" :: p => .join p
     | k :: args =>
       if k = "S" || k = "F" || k = "C" then (match parseReq k args with | some r => .full r | none => .bad)
       else if k = "bS" || k = "bF" || k = "bC" then (match parseReq (k.drop 1).toString args with | some r => .sBegin r | none => .bad)
+      else if k = "fS" || k = "fF" || k = "fC" then (match parseReq (k.drop 1).toString args with | some r => .follow r | none => .bad)
       else .bad
     | [] => .bad
 
@@ -45,8 +48,16 @@ partial def showOut (seen : List ProcId) : Out → List ProcId × String
   | .pre => (seen, "pre") | .post => (seen, "post") | .ok => (seen, "ok") | .nf => (seen, "nf")
   | .off => (seen, "off") | .busy => (seen, "busy") | .none => (seen, "none") | .badOp => (seen, "bad-op")
   | .err m => (seen, "err:" ++ m)
+  | .wait => (seen, "wait")
   | .group rs =>
     let (seen', ss) := rs.foldl (fun (acc : List ProcId × List String) o => let (s1, t) := showOut acc.1 o; (s1, t :: acc.2)) (seen, [])
+    (seen', "[" ++ ",".intercalate ss.reverse ++ "]")
+  | .shared rs =>
+    -- followers' results: PID identity only
+    let (seen', ss) := rs.foldl (fun (acc : List ProcId × List String) o =>
+      match o with
+      | .pid p _ => let (s1, n) := pidNo acc.1 p; (s1, s!"p{n}" :: acc.2)
+      | o => let (s1, t) := showOut acc.1 o; (s1, t :: acc.2)) (seen, [])
     (seen', "[" ++ ",".intercalate ss.reverse ++ "]")
 
 def insertSorted (x : String) : List String → List String
@@ -74,7 +85,7 @@ def digest (seen : List ProcId) (s : St) : String :=
       | none => acc) (seen, [])
   let live := sortStrings ((s.procs.filter (·.phase = .running)).map fun pr => pathStr pr.path)
   let over := sortStrings ((s.maxLive.filter (·.2 > 1)).map fun e => s!"{pathStr e.1}:{e.2}")
-  s!"tree={",".intercalate toks.reverse} num={s.counter} live={",".intercalate live} started={s.started} over={",".intercalate over} open={s.stops.length}"
+  s!"tree={",".intercalate toks.reverse} num={s.counter} live={",".intercalate live} started={s.started} over={",".intercalate over} open={s.stops.length} fol={s.fol.length}"
 
 def model (line : String) : String :=
   let toks := words line
